@@ -108,6 +108,8 @@ struct OpResult {
     bool done = false;
     uint64_t digest = 0;
     int64_t ret = 0;
+    int64_t raw = 0; // the library function's own return value
+    bool raw_set = false;
     int err = 0;
     uint32_t nev = 0;     // scheduler events raised inside the op
     uint32_t nalloc = 0;  // allocation requests made by the library inside the op
